@@ -115,3 +115,53 @@ OBSERVE_SRC = open(_o.__file__, encoding="utf-8").read()
 
 def query(chart, tick):
     return us(chart.sync_track.bpm_events.timestamp_at_tick_no_optimize_return(tick))  # noqa: F405
+
+
+# ----------------------------------------------------------------------------------------------
+# a single parse that does not come back (a changed decoder computing 2**99999999, a loop that no longer
+# advances) is an outcome of the code under test, not a fault of the harness: it is cut off after CASE_LIMIT_S and
+# surfaces as the exception CaseTimeout, which no statement allows - the case is then reported like any other
+# wrong outcome instead of stalling the shard until the watchdog kills the worker.
+import contextlib  # noqa: E402
+import os as _os  # noqa: E402
+import signal as _signal  # noqa: E402
+import threading as _threading  # noqa: E402
+
+CASE_LIMIT_S = float(_os.environ.get("VERIF_CASE_LIMIT_S", "60"))
+
+
+class CaseTimeout(Exception):
+    pass
+
+
+def _on_alarm(signum, frame):
+    raise CaseTimeout("a single parse / query ran for more than %g s" % CASE_LIMIT_S)
+
+
+@contextlib.contextmanager
+def limited():
+    if _threading.current_thread() is not _threading.main_thread():
+        yield
+        return
+    old = _signal.signal(_signal.SIGALRM, _on_alarm)
+    _signal.setitimer(_signal.ITIMER_REAL, CASE_LIMIT_S)
+    try:
+        yield
+    finally:
+        _signal.setitimer(_signal.ITIMER_REAL, 0)
+        _signal.signal(_signal.SIGALRM, old)
+
+
+def _limit(fn):
+    import functools
+
+    @functools.wraps(fn)
+    def wrapper(*a, **kw):
+        with limited():
+            return fn(*a, **kw)
+
+    return wrapper
+
+
+parse, parse_counting, outcome = _limit(parse), _limit(parse_counting), _limit(outcome)
+model_outcome = _limit(_o.model_outcome)
